@@ -663,6 +663,9 @@ def run(rep, tier, seed, model, replay):
         return 0 if m > 18.0 else (1 if m > 10.0 else 2)
 
     groups = [[c for c in cases if mclass(c) == k] for k in range(3)]
+    if len(groups[1]) <= 12:        # a dozen medium cases among 16 workers stay below ~25 GB: one pool (quick tier)
+        groups[2] += groups[1]
+        groups[1] = []
     for group, nproc in zip(groups, (4, 8, 16)):
         group.sort(key=lambda c: -case_cost(c))         # longest first
         if group:
